@@ -70,7 +70,9 @@ class Inliner:
             for q, lst in m.all_functions.items():
                 # a decorator changes what a call does (lru_cache, contextmanager, ...): decorated helpers are never transparent
                 plain = all((dotted(d) or "") in ("staticmethod",) for d in lst[0].decorator_list) if len(lst) == 1 else False
-                if (mn, q) not in self.inv and len(lst) == 1 and "<locals>" not in q and plain:
+                short = q.split(".")[-1]
+                dunder = short.startswith("__") and short.endswith("__")   # special methods are called implicitly: never transparent
+                if (mn, q) not in self.inv and len(lst) == 1 and "<locals>" not in q and plain and not dunder:
                     self.helpers.setdefault(q.split(".")[-1], []).append((mn, q, lst[0]))
 
     def any_helpers(self):
